@@ -221,10 +221,12 @@ def run_case(ck, desc):
             ck.violation("fit-with-supplied-tau", {"raised": repr(e)}, desc)
             return True, None
         calls = _drain()
-        if not calls:
-            ck.inconclusive_because("spy on curve_fit was bypassed")
-            return False, None
+        # the clauses below are about the fitted values, whichever optimiser produced them; a fit
+        # that never reached curve_fit is counted (the run is inconclusive only if NO fit did)
         ck.count("spy_evaluations.curve_fit", len(calls))
+        if not calls:
+            ck.count("fits_that_bypassed_curve_fit")
+            calls = [{"p0": [np.nan], "mesg": "curve_fit not called", "nfev": 0}]
         if fo.tau_ != desc["tau_s"]:
             ck.violation("supplied-tau-returned-unchanged", {"tau_": fo.tau_, "supplied": desc["tau_s"]}, desc)
         fv = np.asarray(f(t / desc["tau_s"]), dtype=float)
@@ -267,14 +269,14 @@ def run_case(ck, desc):
                 ck.violation("initial-guess-inside-finite-bounds", {"p0": p0, "bounds": [Mb, tb], "raised": repr(e)}, desc)
             return True, None
         calls = _drain()
-        if not calls:
-            ck.inconclusive_because("spy on curve_fit was bypassed")
-            return False, None
         ck.count("spy_evaluations.curve_fit", len(calls))
-        p0 = calls[-1]["p0"]
-        for v, (lo, hi), nm in ((p0[0], Mb, "M"), (p0[1], tb, "tau")):
-            if not (lo <= v <= hi):
-                ck.violation("initial-guess-inside-finite-bounds", {"param": nm, "p0": v, "bounds": [lo, hi], "via": "curve_fit spy"}, desc)
+        p0 = calls[-1]["p0"] if calls else None
+        if p0 is None:
+            ck.count("fits_that_bypassed_curve_fit")
+        else:
+            for v, (lo, hi), nm in ((p0[0], Mb, "M"), (p0[1], tb, "tau")):
+                if not (lo <= v <= hi):
+                    ck.violation("initial-guess-inside-finite-bounds", {"param": nm, "p0": v, "bounds": [lo, hi], "via": "curve_fit spy"}, desc)
         for v, (lo, hi), nm in ((fo.M_, Mb, "M"), (fo.tau_, tb, "tau")):
             if not (lo <= v <= hi):
                 ck.violation("fitted-parameters-inside-bounds", {"param": nm, "value": float(v), "bounds": [lo, hi]}, desc)
@@ -287,13 +289,13 @@ def run_case(ck, desc):
         warnings.simplefilter("ignore")
         fo.fit(t, y)
     calls = _drain()
-    if not calls:
-        ck.inconclusive_because("spy on curve_fit was bypassed")
-        return False, None
     ck.count("spy_evaluations.curve_fit", len(calls))
+    if not calls:
+        ck.count("fits_that_bypassed_curve_fit")
+        calls = [{"p0": [np.nan, np.nan], "mesg": "curve_fit not called", "nfev": 0}]
     c = calls[-1]
     lo_b = (0.0, 1e-10)
-    if not (c["p0"][0] >= lo_b[0] and c["p0"][1] >= lo_b[1]):
+    if c["nfev"] and not (c["p0"][0] >= lo_b[0] and c["p0"][1] >= lo_b[1]):
         ck.violation("initial-guess-inside-finite-bounds", {"p0": c["p0"]}, desc)
     if not (fo.M_ >= 0 and fo.tau_ >= 1e-10):
         ck.violation("fitted-parameters-inside-bounds", {"M_": float(fo.M_), "tau_": float(fo.tau_)}, desc)
